@@ -182,6 +182,9 @@ func (i *Iterator) Next(ctx context.Context, span telem.TimeSpan) (ok bool) {
 	}()
 	if i.atEnd() {
 		i.reset(i.bounds.End.SpanRange(0))
+		// The view collapses onto the end of the bounds: leave the domain iterator on
+		// the last domain, where a following Prev expects it.
+		i.internal.SeekLast(ctx)
 		return
 	}
 
@@ -374,6 +377,9 @@ func (i *Iterator) Prev(ctx context.Context, span telem.TimeSpan) (ok bool) {
 
 	if i.atStart() {
 		i.reset(i.bounds.Start.SpanRange(0))
+		// The view collapses onto the start of the bounds: leave the domain iterator on
+		// the first domain, where a following Next expects it.
+		i.internal.SeekFirst(ctx)
 		return
 	}
 
